@@ -1526,6 +1526,12 @@ func (c *Conn) executeQuery(ctx context.Context, qry *Query) *Iter {
 		// is not consistent with regards to its schema.
 		return iter
 	case *RequestErrUnprepared:
+		if info == nil {
+			// the statement was not sent as a prepared one, there is nothing to
+			// prepare again: executing it again would loop for as long as the
+			// server keeps answering this way
+			return &Iter{err: x, framer: framer}
+		}
 		stmtCacheKey := c.session.stmtsLRU.keyFor(c.host.HostID(), c.currentKeyspace, qry.stmt)
 		c.session.stmtsLRU.evictPreparedID(stmtCacheKey, x.StatementId)
 		return c.executeQuery(ctx, qry)
